@@ -54,6 +54,7 @@ func dataValues(q bool) []V {
 	vals := intSeqs(n)
 	vals = append(vals,
 		ListV(IntV(3), IntV(1), IntV(2)), ListV(IntV(10), IntV(9), IntV(100)),
+		ListV(IntV(9007199254740993), IntV(9007199254740992), IntV(9007199254740994), IntV(9007199254740991)), // neighbours beyond 2^53
 		ListV(StrV("b"), StrV("a"), StrV("c")), ListV(StrV("b")),
 		StrV(""), StrV("a"), StrV("ab"), StrV("bca"), StrV("é€x"),
 		ListAnyV(IntV(3), IntV(1), IntV(2)), ListAnyV(StrV("b"), StrV("a"), StrV("c")), ListAnyV(IntV(10), IntV(9)),
@@ -62,6 +63,27 @@ func dataValues(q bool) []V {
 		NilV(), IntV(0), IntV(5), BoolV(true),
 	)
 	return vals
+}
+
+// MalformedCase: a control-flow tag with its intermediate tags in an order that has no meaning is refused when the
+// template is compiled (otherwise conditions and branches no longer belong together).
+type MalformedCase struct {
+	Src string `json:"src"`
+}
+
+func (c *MalformedCase) ID() string { return "malformed: " + c.Src }
+
+func (c *MalformedCase) Exec(t *eng.T) {
+	t.Nontrivial()
+	o := px.Render(nil, c.Src, pongo2.Context{"a": false, "b": false, "c": true, "l": []int{1}})
+	t.Outcome(o.Kind())
+	if o.Panic != "" {
+		t.Fail("malformed:panic", "%s panics: %s", c.Src, o.PanicMsg)
+		return
+	}
+	if !o.Compile || o.Err == "" {
+		t.Fail("malformed:accepted", "%s compiles (and renders %s); branches after the else branch, or a second else branch, have no meaning", c.Src, o)
+	}
 }
 
 // ComplCase: ifequal and ifnotequal take opposite branches for the same two operands, whatever their Go types.
@@ -89,7 +111,8 @@ func complOperands() []complOp {
 	type myInt int
 	return []complOp{{"int2", 2, "num", "2"}, {"int3", 3, "num", "3"}, {"int64_2", int64(2), "num", "2"}, {"uint2", uint(2), "num", "2"}, {"int8_3", int8(3), "num", "3"}, {"uint64_3", uint64(3), "num", "3"}, {"myInt2", myInt(2), "num", "2"},
 		{"str2", "2", "str", "2"}, {"strA", "a", "str", "a"}, {"float2", 2.0, "float", "2"}, {"float32_2", float32(2), "float", "2"}, {"float2_5", 2.5, "float", "2.5"}, {"nil", nil, "", ""}, {"true", true, "bool", "t"}, {"false", false, "bool", "f"}, {"empty", "", "str", ""}, {"zero", 0, "num", "0"}, {"list12", []int{1, 2}, "", ""},
-		{"shout_go", shout("go"), "str", "go"}, {"shout_GO", shout("GO"), "str", "GO"}, {"str_go", "go", "str", "go"}, {"str_GO", "GO", "str", "GO"}, {"named_go", plainName("go"), "str", "go"}, {"float0_5", 0.5, "float", "0.5"}, {"float0", 0.0, "float", "0"}}
+		{"shout_go", shout("go"), "str", "go"}, {"shout_GO", shout("GO"), "str", "GO"}, {"str_go", "go", "str", "go"}, {"str_GO", "GO", "str", "GO"}, {"named_go", plainName("go"), "str", "go"}, {"float0_5", 0.5, "float", "0.5"}, {"float0", 0.0, "float", "0"},
+		{"big_a", int64(9007199254740993), "num", "9007199254740993"}, {"big_b", int64(9007199254740992), "num", "9007199254740992"}, {"ubig_a", uint64(9007199254740993), "num", "9007199254740993"}, {"big_b_int", 9007199254740992, "num", "9007199254740992"}}
 }
 
 func (c *ComplCase) ID() string {
@@ -224,7 +247,9 @@ func run(r *eng.Runner) {
 
 	// ---- P6: if / elif / else ----
 	r.Group("if-chains", "prog.case", "if with 0..2 elif and optional else, conditions drawn from 20 atoms covering the truthiness table (also fractions between -1 and 1), alone and inside a loop")
-	atoms := []Expr{v("yes"), v("no"), v("zero"), v("five"), v("es"), v("s"), v("el"), v("l"), v("em"), v("m"), v("nilv"), v("missing"), v("half"), v("fzero"), v("negq"), Not{E: v("no")}, Bin{Op: "==", L: v("five"), R: lit(5)}, Bin{Op: ">", L: v("five"), R: lit(7)}, Bin{Op: "and", L: v("yes"), R: v("es")}, Bin{Op: "or", L: v("zero"), R: v("s")}}
+	atoms := []Expr{v("yes"), v("no"), v("zero"), v("five"), v("es"), v("s"), v("el"), v("l"), v("em"), v("m"), v("nilv"), v("missing"), v("half"), v("fzero"), v("negq"), Not{E: v("no")}, Bin{Op: "==", L: v("five"), R: lit(5)},
+		// a right operand that is only valid under the guard on its left
+		Bin{Op: "and", L: v("zero"), R: Bin{Op: ">", L: Bin{Op: "/", L: lit(12), R: v("zero")}, R: lit(3)}}, Bin{Op: "or", L: v("five"), R: Bin{Op: ">", L: Bin{Op: "/", L: lit(12), R: v("zero")}, R: lit(3)}}, Bin{Op: ">", L: v("five"), R: lit(7)}, Bin{Op: "and", L: v("yes"), R: v("es")}, Bin{Op: "or", L: v("zero"), R: v("s")}}
 	ctxIf := map[string]V{"yes": BoolV(true), "no": BoolV(false), "zero": IntV(0), "five": IntV(5), "es": StrV(""), "s": StrV("q"), "el": ListV(), "l": ListV(IntV(1)), "em": MapV(), "m": MapV("k", IntV(1)), "nilv": NilV(), "xs": ListV(IntV(1), IntV(2), IntV(3)), "half": FloatV(0.5), "fzero": FloatV(0), "negq": FloatV(-0.25)}
 	for elifs := 0; elifs <= 2; elifs++ {
 		for hasElse := 0; hasElse < 2; hasElse++ {
@@ -260,6 +285,15 @@ func run(r *eng.Runner) {
 	for _, d := range data {
 		n := If{Conds: []Expr{v("d")}, Bodies: [][]Node{{For{Key: "x", Over: v("d"), Body: []Node{O(v("x")), O(v("forloop", "Last"))}}}}, HasElse: true, Else: []Node{T("falsy")}}
 		emit([]Node{n}, map[string]V{"d": d}, "for-in-if", "for-in-if")
+	}
+
+	r.Group("if-malformed", "c09.malformed", "if / ifequal / ifnotequal / ifchanged / for with a second else (empty) branch or an elif after the else branch: compile errors")
+	for _, src := range []string{
+		"{% if a %}1{% else %}2{% elif c %}3{% endif %}", "{% if a %}1{% else %}2{% else %}3{% endif %}", "{% if a %}1{% elif b %}2{% else %}3{% elif c %}4{% endif %}", "{% if a %}1{% else %}2{% elif c %}3{% else %}4{% endif %}",
+		"{% ifequal a b %}1{% else %}2{% else %}3{% endifequal %}", "{% ifnotequal a b %}1{% else %}2{% else %}3{% endifnotequal %}", "{% for x in l %}{% ifchanged x %}1{% else %}2{% else %}3{% endifchanged %}{% endfor %}",
+		"{% for x in l %}1{% empty %}2{% empty %}3{% endfor %}",
+	} {
+		r.Do(&MalformedCase{Src: src})
 	}
 
 	// ---- ifequal / ifnotequal ----
@@ -382,6 +416,26 @@ func run(r *eng.Runner) {
 		}
 	}
 
+	// ---- a cycle value is a value: bound from a field of the loop record in the first pass, it stays what it was ----
+	r.Group("cycle-value-detached", "prog.case", "cycle ARG as c silent executed in the first pass only, ARG a field of the forloop record or the loop variable, c printed in every pass")
+	for _, d := range intSeqs(3) {
+		for _, arg := range []Expr{v("forloop", "Counter"), v("forloop", "Revcounter"), v("forloop", "Last"), v("x")} {
+			body := []Node{If{Conds: []Expr{v("forloop", "First")}, Bodies: [][]Node{{&Cycle{Args: []Expr{arg}, As: "c", Silent: true}}}}, O(v("c")), T(",")}
+			emit([]Node{For{Key: "x", Over: v("d"), Body: body}}, map[string]V{"d": d}, "cycle-detached", "cycle-value-detached")
+		}
+	}
+
+	// ---- the same loop tag active several times at once ----
+	r.Group("for-in-recursive-macro", "prog.case", "a macro whose body holds a loop and calls itself from inside that loop (depths 0..3, over all int sequences of length <= 3): every activation of the loop has its own forloop record, before and after the inner call")
+	for _, d := range intSeqs(3) {
+		for depth := 0; depth <= 3; depth++ {
+			body := []Node{For{Key: "x", Over: v("d"), Body: []Node{O(v("forloop", "Counter")), T("<"), If{Conds: []Expr{Bin{Op: ">", L: v("n"), R: lit(0)}}, Bodies: [][]Node{{O(Call{Name: "tree", Args: []Expr{Bin{Op: "-", L: v("n"), R: lit(1)}}})}}},
+				T(">"), O(v("forloop", "Counter")), T("/"), O(v("forloop", "Revcounter")), O(v("forloop", "First")), O(v("forloop", "Last")), T(";")}, HasEmpty: true, Empty: []Node{T("e")}}}
+			main := []Node{Macro{Name: "tree", Params: []Param{{Name: "n"}}, Body: body}, O(Call{Name: "tree", Args: []Expr{lit(depth)}})}
+			emit(main, map[string]V{"d": d}, "for-recursive", "for-in-recursive-macro")
+		}
+	}
+
 	// ---- depth 3 representatives ----
 	r.Group("depth3", "prog.case", "for > if > for and for > for > if/cycle/ifchanged representatives over all pairs of int sequences")
 	for _, a := range seqs {
@@ -399,6 +453,7 @@ func run(r *eng.Runner) {
 
 func init() {
 	eng.RegisterCase("c09.compl", func() eng.Case { return &ComplCase{} })
+	eng.RegisterCase("c09.malformed", func() eng.Case { return &MalformedCase{} })
 	eng.Register(&eng.Check{
 		ID:    "C09",
 		Title: "Branching and looping tags follow their reference semantics",
